@@ -99,7 +99,7 @@ claim("C04",
       "degree-d polynomial at index d obtained from the previous one by the factor (x + alpha^(d-1+generatorBase)); ReedSolomonEncoder.Encode is proved to leave the data symbols unchanged, to write only parity positions, "
       "to write field elements, to place the division remainder right-aligned behind the data with leading zeros, to fail exactly on ecBytes <= 0 or no data, and to preserve the encoder invariant. "
       "Not decided by contracts: that the parity makes all syndromes zero (needs the ring identity dividend = q*g + r and the roots of g, i.e. polynomial algebra over the table-defined product), the whole decoder "
-      "(syndromes, Euclid, Chien, Forney) and the correction bound floor(r/2), GF(1024)/GF(4096) table product == polynomial product for all pairs (16.7M cases), termination of Divide.",
+      "(syndromes, Euclid, Chien, Forney) and the correction bound floor(r/2) — for these a BOUNDED stand-in runs on every check (labelled bounded in the evidence, not counted as proved): encode, all syndromes zero by table-free arithmetic, corrupt up to floor(r/2) symbols, decode, for all six fields over small (k, r) shapes —, GF(1024)/GF(4096) table product == polynomial product for all pairs (16.7M cases), termination of Divide.",
       "tables dumped from the compiled package on every run; polynomial layer in integer mode (XOR facts imported from lemmas proved on 64-bit vectors); remainder by a symbolic positive divisor given its bounds explicitly; "
       "Encode assumes the buffer does not share memory with the encoder's polynomials (sepEnc) and len <= size-1.")
 claim("C08",
